@@ -5,7 +5,7 @@
 # with it, the project builds, the affected package's own tests pass; then runs
 # ./check <ID> against it through a go -overlay (never touching /repo).
 set -u
-seed="$1"; id="$2"; tier="${3:-quick}"
+seed="$(cd "$1" && pwd)"; id="$2"; tier="${3:-quick}"
 export GOFLAGS=-mod=mod GOPROXY=off
 wt=/tmp/wt-verify-$$
 git -C /repo worktree add -q --detach "$wt" HEAD || exit 2
